@@ -46,6 +46,7 @@ static inline vr32 vr_fabs32(vr32 a){ return (vr32)vs_un(4,32,a); }
 /* ---- harness API */
 void vs_reset(int uf_mode);                               /* start a new case; uf_mode: FP operations are uninterpreted symbols */
 vr64 vs_var(const char* name);                            /* fresh real variable, not comparable */
+vr64 vs_var_wild(const char* name);                       /* same, standing for memory the library leaves undefined (padding) */
 #define VS_NOBOUND 0xffffffffu
 vr64 vs_var_between(const char* name, vr64 lo, vr64 hi);  /* variable with lo < v < hi (lo/hi constants or ranked vars, VS_NOBOUND = unbounded) */
 vr64 vs_var_ranked(const char* name, int rank);           /* variable ordered by rank against other ranked variables */
